@@ -126,7 +126,13 @@ class Heap:
         return Ref(oid)
 
     def get(self, ref):
-        return self.objs[ref.oid]
+        o = self.objs.get(ref.oid)
+        if o is None:
+            fb = getattr(self, 'fallback', None)
+            if fb is not None:
+                return fb.get(ref)      # an object created after the snapshot (old() sees its current value)
+            raise KeyError(ref.oid)
+        return o
 
     def snapshot(self):
         h = Heap()
